@@ -63,6 +63,21 @@ func toStruct(e *oracle.Loc, ancestors bool) poly.Location {
 	return loc
 }
 
+// toStructWrapped represents complement(x) as {Complement: true, SubLocations: [x]} throughout.
+func toStructWrapped(e *oracle.Loc) poly.Location {
+	switch e.Kind {
+	case oracle.LocJoin:
+		loc := poly.Location{Join: true}
+		for _, s := range e.Subs {
+			loc.SubLocations = append(loc.SubLocations, toStructWrapped(s))
+		}
+		return loc
+	case oracle.LocComplement:
+		return poly.Location{Complement: true, SubLocations: []poly.Location{toStructWrapped(e.Subs[0])}}
+	}
+	return poly.Location{Start: e.Start - 1, End: e.End, FivePrimePartial: e.Partial5, ThreePrimePartial: e.Partial3}
+}
+
 func featureSeq(w *mon.W, id, parent string, loc poly.Location) (string, string) {
 	var got string
 	defer func() { retainCheck(w, id, "GetSequence", got, "Feature.GetSequence on an assembled feature") }()
@@ -168,6 +183,21 @@ func c02Judge(w *mon.W, id string, x *oracle.Loc, parent string, viaParse bool) 
 	parsedOK := false
 	if viaParse || !HookAvailable {
 		rec := minimalRecord(parent, text)
+		plainRec := rec
+		switch mon.Hash64(text, parent) % 3 {
+		case 1: // the same record with CR LF line ends
+			rec = strings.ReplaceAll(rec, "\n", "\r\n")
+			w.Add("records_with_crlf_line_ends", 1)
+		case 2: // the same record with every line padded with blanks to 80 columns
+			ls := strings.Split(rec, "\n")
+			for i, l := range ls {
+				if l != "" && len(l) < 80 {
+					ls[i] = l + strings.Repeat(" ", 80-len(l))
+				}
+			}
+			rec = strings.Join(ls, "\n")
+			w.Add("records_padded_to_80_columns", 1)
+		}
 		var s poly.Sequence
 		if p := mon.Try(func() { s = genbank.Parse([]byte(rec)) }); p != "" {
 			w.Violation(id, fmt.Sprintf("genbank.Parse of a record with location %s: %s", clip(text, 120), p), rep)
@@ -188,7 +218,8 @@ func c02Judge(w *mon.W, id string, x *oracle.Loc, parent string, viaParse bool) 
 			parsed, parsedOK = s.Features[0].SequenceLocation, true
 			// the same record as one of several in a file: every record's features report bases of their own record
 			other := strings.Repeat("t", 1+len(parent)/2)
-			files := [][2]string{{rec + minimalRecord(other, "1"), "first"}, {minimalRecord(other, "1") + rec, "last"}}
+			// (plain LF layout: the record separator of multi-record files is the line "//")
+			files := [][2]string{{plainRec + minimalRecord(other, "1"), "first"}, {minimalRecord(other, "1") + plainRec, "last"}}
 			for _, f := range files {
 				var many []poly.Sequence
 				if p := mon.Try(func() { many = genbank.ParseMulti([]byte(f[0])) }); p != "" || len(many) != 2 {
@@ -230,11 +261,17 @@ func c02Judge(w *mon.W, id string, x *oracle.Loc, parent string, viaParse bool) 
 		structs = append(structs, built{"parsed from text", parsed})
 	}
 	// (ii) structure path, two normal forms
-	for _, anc := range []bool{false, true} {
+	for form := 0; form < 3; form++ {
+		anc := form == 1
 		loc := toStruct(x, anc)
 		name := "assembled structure (flags on leaves)"
 		if anc {
 			name = "assembled structure (flags on leaves and ancestors)"
+		}
+		if form == 2 {
+			// every complement(...) as a node of its own around its operand, as a program composing locations writes it
+			loc = toStructWrapped(x)
+			name = "assembled structure (complement as a wrapper node)"
 		}
 		got, p := featureSeq(w, id, parent, loc)
 		w.Add("structure_path_evaluations", 1)
